@@ -142,6 +142,9 @@ package conf
 //@   noframe
 //@   allocates
 //@   site NewDecoder#0 ghost c.pendLine = false
+//@   site NewDecoder#0 ghost c.scanFailed = false
+//@   site Scanner).Scan#0 ghostafter c.scanFailed = c.scanFailed || (!$ret && lineDecoder.failed)
+//@   ensures [C17] result == nil ==> !c.scanFailed
 //@   site NewDecoder#0 ghost c.pendKey = false
 //@   site Token#0 ghostafter c.xerr = $ret1
 //@   site Text#0 ghostafter c.pendLine = !lineIgnored(confLine($ret))
@@ -151,12 +154,12 @@ package conf
 //@   site addChild#0 assert [C17] c.pendKey && !c.pendLine && $0 == currNode && $1 == lineKey(confLine(lineDecoder.cur))
 //@   site addChild#0 assert [C17] $2 != nil && $2.kind == 1 && $2.name == $1 && $2.value == lineVal(confLine(lineDecoder.cur))
 //@   site addChild#0 ghost c.pendKey = false
-//@   site Scan#0 assert [C17] !c.pendLine && !c.pendKey
+//@   site Scanner).Scan#0 assert [C17] !c.pendLine && !c.pendKey
 //@   ensures [C17] result == nil ==> c.xerr == io.EOF
 //@   ensures confOK(c)
-//@   loop 0 invariant confOK(c) && xmlDecoder != nil && len(nodeStack) == xmlDecoder.depth + 1 && xmlDecoder.depth >= 0 && !c.pendLine && !c.pendKey
+//@   loop 0 invariant confOK(c) && xmlDecoder != nil && len(nodeStack) == xmlDecoder.depth + 1 && xmlDecoder.depth >= 0 && !c.pendLine && !c.pendKey && !c.scanFailed
 //@   loop 0 invariant forall j {nodeStack[j]} :: (0 <= j && j < len(nodeStack)) ==> isElem(nodeStack[j])
-//@   loop 1 invariant confOK(c) && xmlDecoder != nil && len(nodeStack) == xmlDecoder.depth + 1 && xmlDecoder.depth >= 0 && !c.pendLine && !c.pendKey
+//@   loop 1 invariant confOK(c) && xmlDecoder != nil && len(nodeStack) == xmlDecoder.depth + 1 && xmlDecoder.depth >= 0 && !c.pendLine && !c.pendKey && !c.scanFailed
 //@   loop 1 invariant forall j {nodeStack[j]} :: (0 <= j && j < len(nodeStack)) ==> isElem(nodeStack[j])
 //@   loop 1 invariant lineDecoder != nil && isElem(currNode)
 //@   loop 0 modifies everything
@@ -168,4 +171,5 @@ package conf
 //@   noframe
 //@   allocates
 //@   ensures [C17] result == nil ==> c.xerr == io.EOF
+//@   ensures [C17] result == nil ==> !c.scanFailed
 //@   safety [C17]
